@@ -129,8 +129,6 @@ def expand(prog):
             n = len(s["regs"])
             for i in range(n):
                 for j in range(n):
-                    if s["kind"] == "corr" and i == j:
-                        continue
                     out.append(query(s["regs"][i], s["kind"], b=s["regs"][j], lo=s["lo"], hi=s["hi"]))
         else:
             out.append(s)
